@@ -179,6 +179,10 @@ def one(rep, prog, cfg):
         for fb in with_private_callees(prog, ff[0]):        # the table may sit in a private helper (`from_raw_name`)
             if tables.str_compares(fb):
                 pbody = fb
+        if pbody is None:
+            # data-driven table (`static NAMES: [(&str, Subsystem); N]` + find): the body that does the lookup builds the catch-all
+            from .C20 import static_name_table
+            _, pbody = static_name_table(prog, "client::Subsystem")
         if pbody is not None:
             fallback_verbatim(rep, "C04.verbatim", cfg + "/from_frame", pbody, "client::Subsystem", "Other", 2 if pbody.kind == "Closure" else 1)
         else:
